@@ -297,7 +297,55 @@ def campaign(seed, n, switches=frozenset(), cli=False):
     return stats
 
 
+def fuzz(seed, runs, corpus, switches=frozenset()):
+    """Coverage-guided byte fuzzing of convert() with atheris/libFuzzer (thorough tier extra)."""
+    import subprocess
+    import sys
+
+    stats = Stats()
+    try:
+        sys.path.append(os.path.join(core.VERIF_ROOT, ".deps"))
+        import atheris  # noqa: F401
+    except Exception as e:  # noqa
+        stats.inconclusive["atheris_not_installed"] += 1
+        stats.notes.append("atheris campaign skipped: %s" % e)
+        return stats
+    with tool.scratch_dir() as d:
+        cdir = os.path.join(d, "corpus")
+        os.makedirs(cdir)
+        if corpus == "examples":
+            for i, (name, src) in enumerate(tool.example_programs()):
+                for k in range(2):
+                    with open(os.path.join(cdir, "ex%d_%d" % (i, k)), "wb") as f:
+                        f.write(bytes([k * 2]) + src.encode("latin1", "replace")[:1500])
+        found = os.path.join(d, "found.json")
+        cmd = [sys.executable, os.path.join(core.VERIF_ROOT, "vf", "props", "c15_fuzz.py"), cdir, found, "-runs=%d" % runs, "-seed=%d" % max(1, seed),
+               "-max_len=%d" % (2000 if corpus == "examples" else 300), "-timeout=60", "-rss_limit_mb=4096"]
+        p = subprocess.run(cmd, stdout=subprocess.PIPE, stderr=subprocess.PIPE, cwd=core.VERIF_ROOT)
+        res = {"found": {}, "count": {}}
+        if os.path.exists(found):
+            with open(found) as f:
+                res = json.load(f)
+        tail = p.stderr.decode("utf-8", "replace")[-400:]
+    cnt = res.get("count", {})
+    stats.evaluations += int(cnt.get("n", 0))
+    stats.classes["atheris_runs_%s_corpus" % corpus] += int(cnt.get("n", 0))
+    stats.classes["atheris_converted"] += int(cnt.get("ok", 0))
+    stats.classes["atheris_refused"] += int(cnt.get("refused", 0))
+    stats.classes["atheris_listed_internal"] += int(cnt.get("internal_listed", 0))
+    if cnt.get("ok"):
+        stats.nontrivial.add(core.digest(["atheris", corpus, seed, "converted"]))
+    if cnt.get("refused"):
+        stats.nontrivial.add(core.digest(["atheris", corpus, seed, "refused"]))
+    for key, f_ in res.get("found", {}).items():
+        stats.fail("coverage-guided fuzzing: internal failure %s instead of a documented refusal" % f_["bucket"], {"source": f_["source"], "options": f_["options"]})
+    if "timeout" in tail.lower() and "libfuzzer" in tail.lower():
+        stats.fail("coverage-guided fuzzing: an input did not finish within 60 s: " + tail[-200:], {"source": "", "options": {}, "note": "see libFuzzer timeout artefact"})
+    return stats
+
+
 def plan(tier, seed, switches):
     if tier == "quick":
         return [("campaign", [dict(seed=seed * 100 + k, n=700, switches=switches) for k in range(4)] + [dict(seed=seed * 100 + 9, n=150, switches=switches, cli=True)])]
-    return [("campaign", [dict(seed=seed * 1000 + k, n=10000, switches=switches) for k in range(15)] + [dict(seed=seed * 1000 + 99, n=3000, switches=switches, cli=True)])]
+    return [("campaign", [dict(seed=seed * 1000 + k, n=10000, switches=switches) for k in range(11)] + [dict(seed=seed * 1000 + 99, n=3000, switches=switches, cli=True)]),
+            ("fuzz", [dict(seed=seed * 10 + k, runs=150000, corpus=("examples" if k % 2 else "empty")) for k in range(4)])]
